@@ -80,7 +80,7 @@ CAT_SLASH = ['a/b', 'x/y/z', '/lead', 'trail/', 'u//v', 'é/ü']
 
 
 def rand_md(rng, n, axis, forced=None):
-    kind = forced or rng.choice(['none', 'none', 'text', 'int', 'float', 'bool', 'tax', 'collapsed', 'slash', 'multi', 'multi'])
+    kind = forced or rng.choice(['none', 'none', 'text', 'int', 'float', 'bool', 'tax', 'collapsed', 'slash', 'multi', 'multi', 'empty', 'empty'])
     if kind == 'none' or n == 0:
         return None, 'none'
     cats = []          # (name, generator of a value for id i)
@@ -107,7 +107,15 @@ def rand_md(rng, n, axis, forced=None):
         elif k == 'slash':
             nm = rng.choice(CAT_SLASH)
             cats.append((nm, rng.choice([text, lambda i: rng.randint(0, 9)])))
-    if kind == 'multi':
+    if kind == 'empty':
+        # the empty text is text: a category that is '' for EVERY id of the axis (an unfilled column), alone or next to a
+        # second all-empty one, or '' for all ids but one (the control)
+        shape = rng.choice(['all', 'all', 'two', 'all-but-one'])
+        j = rng.randrange(n)
+        cats.append((rng.choice(['Description', 'notes', 'a/b']), (lambda i: 'x' if i == j else '') if shape == 'all-but-one' else (lambda i: '')))
+        if shape == 'two':
+            cats.append(('comment', lambda i: ''))
+    elif kind == 'multi':
         for k in rng.sample(['text', 'int', 'float', 'bool', 'tax', 'collapsed', 'slash'], rng.randint(2, 4)):
             add(k)
     else:
